@@ -2,8 +2,11 @@ package main
 
 import (
 	"fmt"
+	"go/ast"
 	"go/types"
 	"strings"
+
+	"golang.org/x/tools/go/ssa"
 )
 
 // Evaluation of contract expressions into SMT terms over a (current, old) pair
@@ -40,6 +43,61 @@ func (e *Eng) funcEnv(fr *Frame) *Env {
 	for _, fv := range fr.fn.FreeVars {
 		if v, ok := fr.vals[fv]; ok {
 			env.vars[fv.Name()] = v
+		}
+	}
+	// single-assignment local variables, by their source name (from go/ssa debug references)
+	if fr.locals == nil {
+		fr.locals = map[string]ssa.Value{}
+		vals := map[string]map[ssa.Value]bool{}
+		addrs := map[string]map[ssa.Value]bool{}
+		for _, b := range fr.fn.Blocks {
+			for _, ins := range b.Instrs {
+				d, ok := ins.(*ssa.DebugRef)
+				if !ok {
+					continue
+				}
+				id, ok := d.Expr.(*ast.Ident)
+				if !ok {
+					continue
+				}
+				if _, isConst := d.X.(*ssa.Const); isConst {
+					continue
+				}
+				tgt := vals
+				if d.IsAddr {
+					// address-taken local (e.g. a range copy of a struct): exposed as a pointer, selectors auto-dereference
+					if _, isAlloc := d.X.(*ssa.Alloc); !isAlloc {
+						continue
+					}
+					tgt = addrs
+				}
+				if tgt[id.Name] == nil {
+					tgt[id.Name] = map[ssa.Value]bool{}
+				}
+				tgt[id.Name][d.X] = true
+			}
+		}
+		for n, set := range vals {
+			if len(set) == 1 {
+				for v := range set {
+					fr.locals[n] = v
+				}
+			}
+		}
+		for n, set := range addrs {
+			if _, have := fr.locals[n]; !have && len(set) == 1 && len(vals[n]) == 0 {
+				for v := range set {
+					fr.locals[n] = v
+				}
+			}
+		}
+	}
+	for n, v := range fr.locals {
+		if _, taken := env.vars[n]; taken {
+			continue
+		}
+		if val, ok := fr.vals[v]; ok {
+			env.vars[n] = val
 		}
 	}
 	return env
